@@ -71,11 +71,17 @@ func gen(t *rapid.T) Case {
 
 type hookLog struct {
 	peers []string // "kind:peer"
+	live  func() bool
+	// hooks invoked for the third peer while the request was in progress
+	thirdWhileLive []string
 }
 
 func setupHooks(rq *sim.Inst, log *hookLog) {
 	rq.GS.RegisterIncomingResponseHook(func(p peer.ID, r graphsync.ResponseData, ha graphsync.IncomingResponseHookActions) {
 		log.peers = append(log.peers, "response:"+string(p))
+		if p == scen.ThirdID && log.live != nil && log.live() {
+			log.thirdWhileLive = append(log.thirdWhileLive, "response")
+		}
 		if _, ok := r.Extension(trigErr); ok {
 			ha.TerminateWithError(errors.New("response hook error triggered"))
 		}
@@ -85,6 +91,9 @@ func setupHooks(rq *sim.Inst, log *hookLog) {
 	})
 	rq.GS.RegisterIncomingBlockHook(func(p peer.ID, r graphsync.ResponseData, b graphsync.BlockData, ha graphsync.IncomingBlockHookActions) {
 		log.peers = append(log.peers, "block:"+string(p))
+		if p == scen.ThirdID {
+			log.thirdWhileLive = append(log.thirdWhileLive, "block")
+		}
 		if _, ok := r.Extension(trigErr); ok {
 			ha.TerminateWithError(errors.New("block hook error triggered"))
 		}
@@ -126,6 +135,7 @@ func judge(c Case) *pbt.Verdict {
 	// run B: with the intruder
 	logB := &hookLog{}
 	inProgressHits := 0
+	sentToThirdWhileLive := 0
 	triggerHits := 0
 	b := scen.Exchange(outerT, p, scen.ExOpts{
 		Setup: func(w *sim.World, rq, rs *sim.Inst) {
@@ -133,6 +143,10 @@ func judge(c Case) *pbt.Verdict {
 			w.AddScripted(scen.ThirdID)
 		},
 		Drive: func(w *sim.World, rq, rs *sim.Inst, res *sim.ReqResult) {
+			logB.live = func() bool {
+				_, _, rc, ec := res.Snapshot()
+				return !rc || !ec
+			}
 			var id graphsync.RequestID
 			haveID := false
 			fire := func(in Intrusion) {
@@ -164,9 +178,18 @@ func judge(c Case) *pbt.Verdict {
 						}
 					}
 				}
+				wasLive := !rc || !ec
 				if err := w.Net.Inject(scen.ThirdID, scen.ReqID, gsmsg.NewMessage(nil, map[graphsync.RequestID]gsmsg.GraphSyncResponse{id: resp}, blks)); err == nil {
+					before := len(w.Net.Attempts)
 					w.Net.Deliver(scen.ThirdID, scen.ReqID)
 					w.Wait()
+					if wasLive {
+						for _, e := range w.Net.Attempts[before:] {
+							if e.From == scen.ReqID && e.To == scen.ThirdID {
+								sentToThirdWhileLive++
+							}
+						}
+					}
 				}
 			}
 			step := 0
@@ -220,13 +243,13 @@ func judge(c Case) *pbt.Verdict {
 	if a.Panic != "" || b.Panic != "" {
 		return v.Failf("panic: %s %s", a.Panic, b.Panic)
 	}
-	for _, h := range logB.peers {
-		if strings.HasSuffix(h, ":"+string(scen.ThirdID)) {
-			return v.Failf("a %s hook was invoked for the third peer's message", strings.Split(h, ":")[0])
-		}
+	// (a response that arrives after the request has ended reaches the response hooks whoever sent it:
+	// there is no request left to protect, and the genuine responder's own late statuses do the same)
+	if len(logB.thirdWhileLive) > 0 {
+		return v.Failf("a %s hook was invoked for the third peer's message while the request was in progress", logB.thirdWhileLive[0])
 	}
-	if n := len(reqTypes(b, scen.ThirdID)); n > 0 {
-		return v.Failf("requestor sent %d message(s) to the third peer", n)
+	if sentToThirdWhileLive > 0 {
+		return v.Failf("requestor sent %d message(s) to the third peer in reaction to its message for a request in progress", sentToThirdWhileLive)
 	}
 	if ta, tb := fmt.Sprint(reqTypes(a, scen.RespID)), fmt.Sprint(reqTypes(b, scen.RespID)); ta != tb {
 		return v.Failf("requests sent to the genuine responder differ: without intruder %s, with %s", ta, tb)
